@@ -79,7 +79,7 @@ func TestC13Completeness(t *testing.T) {
 			isTree:    map[digest.Digest]bool{},
 			malformAt: -1,
 		}
-		if g.n(0, 4, "malform") == 0 {
+		if g.n(0, 4, "malform") == 4 {
 			g.malformAt = g.n(0, 19, "malformAt")
 		}
 		ndirs := rapid.SampledFrom([]int{0, 1, 1, 1, 2, 2, 3}).Draw(t, "ndirs")
@@ -94,7 +94,7 @@ func TestC13Completeness(t *testing.T) {
 		streamed := map[digest.Digest]serveSpec{}
 		unreadable := map[digest.Digest]bool{}
 		fault := ""
-		if ntrees > 0 && g.n(0, 3, "fault") == 0 {
+		if ntrees > 0 && g.n(0, 3, "fault") == 3 {
 			kind := rapid.SampledFrom(faultKinds).Draw(t, "fault/kind")
 			tb := trees[g.n(0, ntrees-1, "fault/tree")]
 			code := faultCodes[g.n(0, len(faultCodes)-1, "fault/code")]
@@ -132,7 +132,7 @@ func TestC13Completeness(t *testing.T) {
 		}
 		for i, d := range g.order {
 			if _, referenced := full.refs[d]; !referenced {
-				if g.n(0, 3, fmt.Sprintf("unreferenced/%d", i)) == 0 {
+				if g.n(0, 3, fmt.Sprintf("unreferenced/%d", i)) == 3 {
 					absent[d] = true
 				}
 			}
@@ -156,24 +156,24 @@ func TestC13Completeness(t *testing.T) {
 
 		batch := g.n(1, 5, "batch")
 		maxTotal := int64(1 << 20)
-		switch g.n(0, 9, "limit") {
-		case 0:
+		switch g.n(0, 19, "limit") {
+		case 16, 17:
 			if maxTotal = full.sumDup - 1; maxTotal < 0 {
 				maxTotal = 0
 			}
-		case 1:
+		case 13, 14, 15:
 			maxTotal = full.sumDup
-		case 2:
+		case 18:
 			maxTotal = int64(g.n(0, int(full.sumDup), "limit/value"))
-		case 3:
+		case 19:
 			maxTotal = 0
 		}
 		srv := &casServer{Mem: mem, streamed: streamed}
 		var inner blobstore.BlobAccess = srv
 		var faulty *backends.Faulty
 		faultAt, faultCode := -1, codes.OK
-		if g.n(0, 5, "casfault") == 0 {
-			faultAt = g.n(0, 7, "casfault/at")
+		if g.n(0, 5, "casfault") == 5 {
+			faultAt = rapid.SampledFrom([]int{0, 0, 1, 1, 2, 2, 3, 4, 5, 7}).Draw(t, "casfault/at")
 			faultCode = faultCodes[g.n(0, len(faultCodes)-1, "casfault/code")]
 			faulty = backends.NewFaulty("cas", srv, map[int]backends.Fault{faultAt: {Code: faultCode, MidStreamAfter: -1}})
 			inner = faulty
@@ -255,6 +255,10 @@ func TestC13Completeness(t *testing.T) {
 		c.ClassIf(final.sumDup == maxTotal && maxTotal > 0, "tree_size_limit_exactly_met")
 		c.ClassIf(final.sumDup != final.sumDedup, "same_tree_in_two_directories")
 		c.ClassIf(len(final.ambiguous) > 0, "shape_without_fixed_outcome")
+		if len(final.ambiguous) > 0 {
+			c.ClassIf(strings.Contains(final.ambiguous[0], "no tree digest"), "shape_no_tree_digest")
+			c.ClassIf(strings.Contains(final.ambiguous[0], "not referenced"), "shape_malformed_unreferenced_digest")
+		}
 		c.ClassIf(final.dirsSeen > final.trees, "tree_with_child_directories")
 		c.ClassIf(sp.finds >= 2, "two_or_more_find_missing_calls")
 		c.ClassIf(sp.maxBatch > batch, "batch_larger_than_configured")
